@@ -54,8 +54,10 @@ class Runner(object):
         self.count += 1
         res = dict(trace=None, final=None, exc=None, horizon=False, raw=b'')
         try:
-            # LOCATE keeps the cursor at the top: a full screen scrolls at 10 ms per line
-            r = H.run(s, b'LOCATE 1,1:NEW')
+            # LOCATE keeps the cursor at the top: a full screen scrolls at 10 ms per line.
+            # ON ERROR GOTO 0: NEW does not switch float errors back to soft handling after a
+            # program used ON ERROR GOTO (a pcbasic defect outside these properties)
+            r = H.run(s, b'LOCATE 1,1:ON ERROR GOTO 0:NEW')
             if r.exc is not None or r.err is not None:
                 raise CheckError('NEW failed: %r' % (r,))
             for l in text_lines:
